@@ -48,6 +48,11 @@ pub enum Malform {
     WrongNamespace,
     NotXml,
     UnclosedTag,
+    /// content after the root element's end tag (0 = an element, 1 = character data, 2 = a stray
+    /// end tag, 3 = a second `<hello>`, 4 = an `<rpc-reply>`): not a well-formed document
+    Trailing(u8),
+    /// character data before the root element
+    LeadingText,
 }
 
 #[derive(Debug, Clone, Serialize, Deserialize)]
@@ -146,6 +151,19 @@ pub fn hello_doc(case: &Case) -> (String, Vec<String>) {
             msg = format!("{}{MARKER}", &body[..cut]);
         }
         Malform::NotXml => msg = format!("SSH-2.0-not-netconf\n{MARKER}"),
+        Malform::Trailing(k) => {
+            let body = msg.strip_suffix(MARKER).unwrap().trim_end().to_string();
+            let close = if case.prefixed { "</nc:hello>" } else { "</hello>" };
+            let extra = match k % 5 {
+                0 => "<junk/>".to_string(),
+                1 => "garbage".to_string(),
+                2 => close.to_string(),
+                3 => body.clone(),
+                _ => format!("<rpc-reply xmlns=\"{NS_BASE}\" message-id=\"1\"><ok/></rpc-reply>"),
+            };
+            msg = format!("{body}{extra}\n{MARKER}");
+        }
+        Malform::LeadingText => msg = format!("hello {msg}"),
         Malform::UnclosedTag => {
             msg = msg
                 .replace("</capabilities>", "")
@@ -254,6 +272,8 @@ impl Prop for HelloMatrix {
                 1 => Just(Malform::WrongNamespace),
                 1 => Just(Malform::NotXml),
                 1 => Just(Malform::UnclosedTag),
+                2 => (0u8..5).prop_map(Malform::Trailing),
+                1 => Just(Malform::LeadingText),
             ],
             any::<bool>(),
         )
